@@ -49,6 +49,32 @@ proof fn lemma_sides_2(s: Seq<ByteDiff>)
     assert(s.last() == s[1]);
 }
 
+/// what one segment contributes to either side
+pub open spec fn old_part(d: ByteDiff) -> Seq<u8> { if bd_op(d) == ByteDiffOp::Insert { Seq::<u8>::empty() } else { bd_data(d) } }
+pub open spec fn new_part(d: ByteDiff) -> Seq<u8> { if bd_op(d) == ByteDiffOp::Delete { Seq::<u8>::empty() } else { bd_data(d) } }
+proof fn lemma_sides_push(s: Seq<ByteDiff>, d: ByteDiff)
+    ensures old_side(s.push(d)) =~= old_side(s) + old_part(d), new_side(s.push(d)) =~= new_side(s) + new_part(d),
+{
+    reveal_with_fuel(old_side, 2); reveal_with_fuel(new_side, 2);
+    assert(s.push(d).drop_last() =~= s);
+    assert(s.push(d).last() == d);
+}
+/// the sides of a concatenation are the concatenations of the sides
+proof fn lemma_sides_add(a: Seq<ByteDiff>, b: Seq<ByteDiff>)
+    ensures old_side(a + b) =~= old_side(a) + old_side(b), new_side(a + b) =~= new_side(a) + new_side(b),
+    decreases b.len()
+{
+    if b.len() == 0 {
+        assert(a + b =~= a);
+        lemma_sides_0(b);
+    } else {
+        lemma_sides_add(a, b.drop_last());
+        assert(a + b =~= (a + b.drop_last()).push(b.last()));
+        lemma_sides_push(a + b.drop_last(), b.last());
+        assert(b =~= b.drop_last().push(b.last()));
+        lemma_sides_push(b.drop_last(), b.last());
+    }
+}
 //#item file=src/authorship/attribution_tracker.rs kind=fn name=append_range_diffs opaque='[{"expr": "&old_content[old_start..old_end]", "call": "str_sub(old_content, old_start, old_end)"}, {"expr": "&new_content[new_start..new_end]", "call": "str_sub(new_content, new_start, new_end)"}]'
 fn append_range_diffs(
     diffs: &mut Vec<ByteDiff>,
